@@ -55,6 +55,10 @@ def gen_case(rng, params, idx):
         if r < 0.4 or not live:
             n = npos if rng.random() < 0.85 else max(1, npos + rng.choice([-1, 1]))
             pos = [{"n": f"a{j}", "t": rng.choice(pool)} for j in range(n)]
+            if rng.random() < 0.3:
+                # value-dependent types: their table entries are found through the *bound*, after a plain class may
+                # already have been looked up and cached
+                pos[rng.randrange(n)]["t"] = rng.choice([["L", 0], ["L", 1], ["L", 0, 1], ["D", "int", "even"], ["D", "object", "truthy"]])
             if target == "ovld" and rng.random() < 0.1 and n >= 1:
                 pos[-1] = dict(pos[-1], opt=True)
             m = {"mid": mid, "pos": pos, "kw": [], "prio": rng.choice([0, 0, 0, 1]),
@@ -186,14 +190,16 @@ def _same_sig(a, b):
 def _check_mtm(spec, res, env):
     res.count("histories_mtm")
 
-    def handler(mid):
-        def h(*a):
-            return mid
+    def handler(mid, n=1):
+        # real positional parameters: the table inspects the first parameter name of a handler
+        h = eval("lambda " + ", ".join(f"a{j}" for j in range(n)) + f": {mid}")
         h.__name__ = f"h{mid}"
         return h
 
+    from ovld.types import normalize_type
+
     def sig(m):
-        types = tuple(env.cls(p["t"]) for p in m["pos"])
+        types = tuple(normalize_type(T.ann(p["t"], env), None) for p in m["pos"])
         return Signature(types=types, return_type=object, req_pos=len(types), max_pos=len(types),
                          req_names=frozenset(), vararg=False, priority=m.get("prio", 0))
 
@@ -202,7 +208,16 @@ def _check_mtm(spec, res, env):
         for p in spec["probes"]:
             tup = tuple(int if n == "int" else str if n == "str" else env.cls(n) for n in p)
             try:
-                outs.append(("handler", mm[tup].__name__))
+                fn = mm[tup]
+                # a handler, or a generated value-dispatcher: identify it by what it answers on sample values
+                ans = []
+                for k in range(3):
+                    vals = [(k if t is int else "s" if t is str else t()) for t in tup]
+                    try:
+                        ans.append(fn(*vals))
+                    except Exception as e:  # noqa: BLE001
+                        ans.append("raises " + type(e).__name__)
+                outs.append(("handler", ans))
             except KeyError as e:
                 poss = e.args[1] if len(e.args) > 1 else ()
                 outs.append(("keyerror", "ambiguous" if poss else "notfound",
@@ -235,7 +250,7 @@ def _check_mtm(spec, res, env):
         if any(_same_sig(m, o) for o in live):
             # the table has no notion of replacing: identical signature + priority would be a plain tie
             continue
-        handlers[m["mid"]] = handler(m["mid"])
+        handlers[m["mid"]] = handler(m["mid"], len(m["pos"]))
         H.register(sig(m), handlers[m["mid"]])
         live.append(m)
         res.count("mutations")
